@@ -4,7 +4,8 @@
    (any number of contexts), [es] = ANY schedule: any interleaving, of any length, of Add / Cancel
    / Size calls, context ends and steps of the watcher goroutine (whose program counter includes
    the window between its last RUnlock and cancel()). *)
-From Kit Require Import C20.Model C20.Spec C20.Check C20.Proofs C20.Proofs_script C20.Proofs_main.
+From Kit Require Import C20.Model C20.Spec C20.Check C20.Proofs C20.Proofs_script C20.Proofs_main
+  C20.Proofs_nested.
 
 (* NEVER EARLY.  Whenever the pool's context is done, Cancel was called or every member has
    ended.  "Member" is the property's notion, made explicit by the ghost field [members] (see
@@ -172,3 +173,75 @@ Theorem C20_race_oracle_sound : forall confirmed mid fin leak,
   race_oracle confirmed mid fin leak = true <-> race_spec confirmed mid fin leak.
 Proof. exact race_oracle_sound. Qed.
 Print Assumptions C20_race_oracle_sound.
+
+(* PARTIALLY OBSERVED SCRIPTS (Spec.v, 4): some steps are not looked at, or only Done() or only
+   Size() is; the Size the property pins is threaded through Size() calls and ignored Adds.
+   The boolean oracle decides the predicate. *)
+Theorem C20_pscript_oracle_sound : forall pre ctxs ops o0 obs fin leak,
+  pscript_oracle pre ctxs ops o0 obs fin leak = true <-> pscript_spec pre ctxs ops o0 obs fin leak.
+Proof. exact pscript_oracle_sound. Qed.
+Print Assumptions C20_pscript_oracle_sound.
+
+(* On a fully observed script the partial-observation specification demands at least what the
+   script specification demands. *)
+Theorem C20_pscript_refines_script : forall pre ctxs ops o0 obs fin leak,
+  pscript_spec pre ctxs ops o0 (map pfull obs) fin leak -> script_spec pre ctxs ops o0 obs fin leak.
+Proof. exact pscript_full_implies_script. Qed.
+Print Assumptions C20_pscript_refines_script.
+
+(* For EVERY script and EVERY way of forgetting parts of the model's observations, what is left
+   satisfies the partial-observation specification. *)
+Theorem C20_pscript_model_meets_spec : forall pre ctxs ops pobs,
+  let '(o0, obs, fin) := script_model pre ctxs ops in
+  Forall2 weaker obs pobs -> pscript_spec pre ctxs ops o0 pobs fin false.
+Proof. exact pscript_model_meets_spec. Qed.
+Print Assumptions C20_pscript_model_meets_spec.
+
+(* AN OPERATION NESTED IN Add (Spec.v, 5): Cancel() / Size() started, or members ended, inside
+   the Done() method of the offered context, which Add calls while it holds the lock.  The
+   nested specification asks that ONE of the two orders of Add and the nested operation explains
+   everything observed (after Cancel returned Size is 0 for ever and later Adds are ignored; a
+   pool seen done ignores what is offered afterwards; never early for what was accepted before);
+   the boolean oracle decides it. *)
+Theorem C20_nested_oracle_sound :
+  forall pre ctxs ops1 o0 obs1 m nops called ndone nret nres oA ops2 obs2 fin leak,
+  nested_oracle pre ctxs ops1 o0 obs1 m nops called ndone nret nres oA ops2 obs2 fin leak = true <->
+  nested_spec pre ctxs ops1 o0 obs1 m nops called ndone nret nres oA ops2 obs2 fin leak.
+Proof. exact nested_oracle_sound. Qed.
+Print Assumptions C20_nested_oracle_sound.
+
+(* Every nested case that the model of pool.go explains (Add atomic under the write lock: nothing
+   nested completes inside the callback, observations = those of the settled script "Add, nested
+   operation, ...") satisfies the nested specification - for all prefixes, nested operations
+   and continuations. *)
+Theorem C20_nested_model_meets_spec :
+  forall pre ctxs ops1 o0 obs1 m nops called inside ndone nret nres oA ops2 obs2 fin leak,
+  nested_agrees pre ctxs ops1 o0 obs1 m nops called inside ndone nret nres oA ops2 obs2 fin leak = true ->
+  nested_spec pre ctxs ops1 o0 obs1 m nops called ndone nret nres oA ops2 obs2 fin leak.
+Proof. exact nested_agrees_spec. Qed.
+Print Assumptions C20_nested_model_meets_spec.
+
+(* What the nested oracle rejects: Cancel() ran to completion inside the callback and Add then
+   appended - after Cancel returned the pool still tracks a context (Size 1).  Verdict 2. *)
+Theorem C20_nested_cancel_then_tracked_rejected :
+  check_case (CNested [] [0%Z] [] (false, 1%Z) [] 1%Z [SCancel] true true false true None (true, 1%Z)
+                      [SSize; SAdd 2%Z; SSize] [(true, 1%Z); (true, 1%Z); (true, 1%Z)] true false) = 2%Z.
+Proof. exact nested_cancel_then_tracked_rejected. Qed.
+Print Assumptions C20_nested_cancel_then_tracked_rejected.
+
+(* ... and: the last member ended inside the callback, the pool was seen done there, Add then
+   appended a live context.  Verdict 2 under both orders. *)
+Theorem C20_nested_end_then_tracked_rejected :
+  check_case (CNested [] [0%Z] [] (false, 1%Z) [] 1%Z [SEnd 0%Z] true true true true None (true, 2%Z)
+                      [SSize] [(true, 2%Z)] true false) = 2%Z.
+Proof. exact nested_end_then_tracked_rejected. Qed.
+Print Assumptions C20_nested_end_then_tracked_rejected.
+
+(* A partially observed script case (operations issued back to back, e.g. Cancel(); Add(c);
+   Size()) that the model explains passes the oracle: verdict 2 on such a case can only come
+   from the implementation. *)
+Theorem C20_pscript_agrees_oracle : forall pre ctxs ops o0 obs fin leak,
+  model_agrees (CPScript pre ctxs ops o0 obs fin leak) = true ->
+  oracle (CPScript pre ctxs ops o0 obs fin leak) = true.
+Proof. exact pscript_agrees_oracle. Qed.
+Print Assumptions C20_pscript_agrees_oracle.
